@@ -23,6 +23,11 @@ func mkDoc(text string) doc {
 	return doc{Text: text, Raw: raw, Norm: core.Norm(raw)}
 }
 
+// mkDocRaw wraps a raw Go value (JSON model) as a document.
+func mkDocRaw(raw any) doc {
+	return doc{Text: core.ToJSONText(raw), Raw: raw, Norm: core.Norm(raw)}
+}
+
 // jsonDocs enumerates every JSON value of nesting depth <= depth over the
 // given atoms, object keys (all subsets) and array lengths <= maxLen, as JSON
 // text, simplest first.
